@@ -27,6 +27,11 @@
 // absent; never together with the scripted plugin) and script steps that allocate / release through that local detector.
 // EXPECT_N_LEAKS / IGNORE_ALL_LEAKS_IN_TEST only reach the first plugin.  Each leak plugin judges its own detector; the one
 // whose post action runs second finds the test already failed when the first one reported, so a test gets at most one leak failure.
+// Extension (seeded change C07-s6): script steps disable() / enable() on the detector a leak plugin uses (the global one, or
+// the local one of the second leak plugin), anywhere in setup / body / teardown, balanced or not, also followed by a failing
+// check.  After such a step the rest of THAT test allocates nothing with that detector (blocks stamped "disabled" or
+// "enabled" instead of "checking" inside the test are where the statement is silent), so the test's own verdict is the
+// ordinary one; the point is the NEXT test: its verdict must be exact whatever state its predecessor left behind.
 // Extension (seeded change C07-s4): a second, scripted plugin, installed before or after the leak plugin (decoded) or absent,
 // adds 0..2 failures for decoded tests through result.addFailure in its pre and / or post action (as MockSupportPlugin does
 // in its post action).  Model: a failure recorded for the test before the leak plugin's post action suppresses the leak
@@ -51,7 +56,7 @@ using verif::sfmt;
 namespace {
 
 enum { MAXT = 16, NSLOT = 16, MAXOPS = 8, BULKMAX = 150, BULKTOTAL = 1200, MAXKEPT = 2 * MAXT * 8, MAXBLK = MAXT * 3 * MAXOPS + BULKTOTAL + MAXKEPT, MAXFAIL = 8, MSGLEN = SimpleStringBuffer::SIMPLE_STRING_BUFFER_LEN + 64 };
-enum Kind { K_NEW = 0, K_NEWARR = 1, K_MALLOC = 2, K_RELEASE, K_EXPECT, K_IGNORE, K_CHECK, K_FAIL, K_BULK, K_REALLOC, K_LALLOC, K_LRELEASE };
+enum Kind { K_NEW = 0, K_NEWARR = 1, K_MALLOC = 2, K_RELEASE, K_EXPECT, K_IGNORE, K_CHECK, K_FAIL, K_BULK, K_REALLOC, K_LALLOC, K_LRELEASE, K_STATE };
 enum { NLSLOT = 4 };
 enum OutMode { OUT_PLAIN = 0, OUT_COLLECTING = 1, OUT_JUNIT = 2 };
 const char* fam_name[3] = {"new", "new[]", "malloc"};
@@ -113,6 +118,7 @@ void run_phase(int t, int ph) {             // NON-ALLOCATING interpreter = the 
             memset(p, 0x4c, o.size);
             b.p = p; g_lslot_ptr[o.slot] = p;
             break; }
+        case K_STATE: { MemoryLeakDetector* d = o.old ? g_local : g_det; if (o.k) d->enable(); else d->disable(); break; }
         case K_LRELEASE: g_local->deallocMemory(defaultNewAllocator(), g_lslot_ptr[o.slot], "local.cpp", (size_t)(900 + t)); g_lslot_ptr[o.slot] = NULLPTR; break;
         case K_REALLOC: {                                // old < 0: realloc(NULL, n)
             Blk& b = g_blk[o.blk];
@@ -226,6 +232,7 @@ struct TestModel {
     bool leak_failure = false;
     bool cross_release = false, edge_leak = false, expect_nonzero = false;
     int bulk = 0, reallocs = 0; bool realloc_earlier_not_larger = false;
+    int state_steps = 0; bool leaves_global_disabled = false, leaves_local_disabled = false;
 };
 
 struct Entry { unsigned num; unsigned long size; std::string addr; bool operator<(const Entry& o) const { return std::tie(num, size, addr) < std::tie(o.num, o.size, o.addr); } bool operator==(const Entry& o) const { return num == o.num && size == o.size && addr == o.addr; } };
@@ -278,7 +285,7 @@ int run_case(Reader& r, bool& nontrivial, std::string& desc) {
     g_ntests = 1 + (int)r.below(MAXT);
     int outmode = (int)r.below(3);
     bool keep_beyond_final = outmode == OUT_COLLECTING && r.flag();
-    int bulk_total = 0; bool any_form = false, both_conditions = false;
+    int bulk_total = 0; bool any_form = false, both_conditions = false, any_state_step = false;
     int xmode = (int)r.below(3);
     int lmode = xmode ? 0 : (int)r.below(3);        // 0 none, 1 local leak plugin installed before the first leak plugin (its post action runs first), 2 after
     if (lmode) desc += lmode == 1 ? "[local leak plugin installed before] " : "[local leak plugin installed after] ";
@@ -300,6 +307,7 @@ int run_case(Reader& r, bool& nontrivial, std::string& desc) {
             if (M.xpost) desc += sfmt("plugin-post-fail x%d ", M.xpost);
         }
         bool skip_body = false;
+        bool frozen_global = false, frozen_local = false;      // after a disable() / enable() step this test allocates nothing more with that detector
         for (int ph = 0; ph < 3; ph++) {
             Phase& P = g_script[t].ph[ph];
             int n = (int)r.below((uint32_t)phase_max[ph] + 1);
@@ -308,10 +316,25 @@ int run_case(Reader& r, bool& nontrivial, std::string& desc) {
             if (n) desc += sfmt("%s:", phase_name[ph]);
             for (int i = 0; i < n && !stopped; i++) {
                 Op& o = P.ops[P.n]; memset(&o, 0, sizeof o);
-                uint32_t kind = r.below(13);       // 0-3 alloc, 4-6 release, 7 expect/ignore, 8 check, 9 own failure, 10 leak k blocks, 11 realloc, 12 local detector
+                uint32_t kind = r.below(14);       // 0-3 alloc, 4-6 release, 7 expect/ignore, 8 check, 9 own failure, 10 leak k blocks, 11 realloc, 12 local detector, 13 disable / enable
                 int slot = r.chance(1, 2) ? (int)r.below(4) : (int)r.below(NSLOT);
                 o.slot = slot;
                 if (kind == 12 && !lmode) kind = 8;
+                if (kind == 13) {
+                    bool on_local = lmode && r.flag(); bool en = r.flag();
+                    o.kind = K_STATE; o.old = on_local; o.k = en;
+                    (on_local ? frozen_local : frozen_global) = true;
+                    (on_local ? M.leaves_local_disabled : M.leaves_global_disabled) = !en;
+                    M.state_steps++; any_state_step = true;
+                    desc += sfmt("%s%s() ", on_local ? "local." : "", en ? "enable" : "disable");
+                    P.n++; continue;
+                }
+                if (frozen_global) {
+                    if (kind <= 6) kind = slot_blk[slot] >= 0 ? 4 : 8;
+                    else if (kind == 10) kind = 8;
+                    else if (kind == 11) kind = slot_blk[slot] >= 0 ? 4 : 8;
+                }
+                if (frozen_local && kind == 12 && lslot_blk[slot % NLSLOT] < 0) kind = 8;
                 if (kind == 12) {
                     int ls = slot % NLSLOT; o.slot = ls;
                     if (lslot_blk[ls] < 0) {
@@ -403,6 +426,13 @@ int run_case(Reader& r, bool& nontrivial, std::string& desc) {
     std::vector<int> lfinal_blocks;
     for (int b = 0; b < g_nblk; b++) if (g_blk[b].live) (g_blk[b].local ? lfinal_blocks : final_blocks).push_back(b);
     if (both_conditions) nontrivial = true;
+    if (any_state_step && keep_beyond_final) { keep_beyond_final = false; desc += "[output releases at the end of the run after all] "; }   // which period an output block gets is not modelled
+    bool disabled_then_verdict = false;      // a test leaves a detector disabled and a later test has something to judge there
+    for (int t = 0; t + 1 < g_ntests; t++) for (int u = t + 1; u < g_ntests; u++) {
+        if (model[(size_t)t].leaves_global_disabled && !model[(size_t)u].leaks.empty()) disabled_then_verdict = true;
+        if (model[(size_t)t].leaves_local_disabled && !model[(size_t)u].lleaks.empty()) disabled_then_verdict = true;
+    }
+    if (disabled_then_verdict) nontrivial = true;
     bool any_cross = false, any_edge = false, any_expect = false; int leakfails = 0, ownfails = 0, xfails = 0;
     for (auto& M : model) { any_cross |= M.cross_release; any_edge |= M.edge_leak; any_expect |= M.expect_nonzero; leakfails += M.leak_failure; ownfails += M.own_failures; xfails += M.xpre + M.xpost; }
     for (auto& M : model) if ((M.xpre || M.xpost) && !M.own_failures && !M.ignored && M.leaks.size() != M.expected) nontrivial = true;   // plugin failure meets an unexpected leak
@@ -468,6 +498,9 @@ int run_case(Reader& r, bool& nontrivial, std::string& desc) {
     size_t lresidue_after = g_local->totalMemoryLeaks(mem_leak_period_all);
     verif::cls(lmode == 0 ? "leak-plugins:one" : lmode == 1 ? "leak-plugins:local-one-installed-before" : "leak-plugins:local-one-installed-after");
     if (both_conditions) verif::cls("program:test-leaks-in-both-detectors(one-leak-failure-only)");
+    if (any_state_step) verif::cls("program:has-disable/enable-steps");
+    if (disabled_then_verdict) verif::cls("program:a-test-leaves-a-detector-disabled-and-a-later-test-leaks");
+    for (auto& M : model) if (M.state_steps) verif::cls(M.leaves_global_disabled || M.leaves_local_disabled ? "test:leaves-a-detector-disabled" : "test:disable/enable-steps-ending-enabled");
     for (int i = 0; i < kept_at_final; i++) {         // model: outstanding at the final report, owned by no test
         Blk& b = g_blk[g_nblk]; b.p = (char*)kept_copy[i].p; b.num = kept_copy[i].num; b.size = kept_copy[i].size; b.fam = K_NEW; b.owner = -1; b.phase = 1; b.live = false;
         final_blocks.push_back(g_nblk++);
